@@ -1,6 +1,15 @@
 import UPVerif.Core.Sexp
 import UPVerif.Drv.C33
 import UPVerif.Drv.Den
+import UPVerif.Drv.C25
+import UPVerif.Drv.C34
+import UPVerif.Drv.C16
+import UPVerif.Drv.C12
+import UPVerif.Drv.C24
+import UPVerif.Drv.C32
+import UPVerif.Drv.C36
+import UPVerif.Drv.C38
+import UPVerif.Drv.C29
 /-!
 Line-protocol driver.  One case per input line `(<Prop> <n> <payload>)`, one answer per output line
 `(<n> <answer>)`.  Never defaults: anything unparsable is answered `bad-case`.
@@ -9,6 +18,15 @@ open UPVerif
 
 def handlers : List (String × (Sexp → Sexp)) := [
   ("C33", Drv.C33.handle),
+  ("C12", Drv.C12.handle),
+  ("C24", Drv.C24.handle),
+  ("C32", Drv.C32.handle),
+  ("C36", Drv.C36.handle),
+  ("C38", Drv.C38.handle),
+  ("C29", Drv.C29.handle),
+  ("C16", Drv.C16.handle),
+  ("C34", Drv.C34.handle),
+  ("C25", Drv.C25.handle),
   ("ECHO", Drv.Den.handleEcho),
   ("DEN", Drv.Den.handleDen)
 ]
